@@ -14,7 +14,7 @@ RULE = ("states = canonical (totals dict, Counter hidden state incl. scalar-vs-a
         "across moduli, batch orders and batch splits; non-trivial = the batch contains a key and a non-key sharing a bucket, or repeats")
 ASSUMPTIONS = ["reference model: dict of totals = initial value + occurrences", "samples lie inside the key dtype's range (others are outside the statement)"]
 REQUIRED_FEATURES = ["empty_batch", "only_non_keys", "non_key_colliding", "non_key_empty_bucket", "all_keys_collide", "scalar_nonzero_init",
-                     "array_init", "large_key", "cross_history_comparisons", "depth2", "huge_batch", "ndarray_batch", "exhaustive_small_batches"]
+                     "array_init", "large_key", "cross_history_comparisons", "depth2", "huge_batch", "ndarray_batch", "exhaustive_small_batches", "numpy_typed_initial_values"]
 BOUNDS = {"quick": "10 key sets (1-5 keys, and 10 / 17 keys) x moduli {default,1,2,3,4,64} x initial {default, 0, 4, per-key array} (+ int8/uint8/uint64/python-list keys, int32 counts on 4 sets); "
                    "all count histories of depth <= 2 over ~32 batches and depth 3 with the third batch from the 12 simplest (empty, every single universe element, ordered pairs over keys / colliding and "
                    "free non-keys, heavy repetition, only non-keys, large keys); every batch of <= 4 samples over 9 symbols on 3 tables with buckets of 3/2/1/0 keys; ndarray batches (one of them as a strided view), a 70 006-sample batch",
@@ -33,6 +33,8 @@ def shards(tier):
     ks = KEYSETS_Q if tier == "quick" else KEYSETS_T
     out = [{"keys": k, "kdt": "int64", "init": i, "depth": 3} for k in ks for i in INITS]
     out += [{"keys": k, "kdt": d, "init": i, "depth": 2} for (k, d) in TYPED for i in ("default", "array")]
+    # initial values spelled in numpy types: a numpy integer scalar, an unsigned per-key array
+    out += [{"keys": k, "kdt": "int64", "init": i, "depth": 2} for k in ([0], [1, 3], [3, 0, 5, 1], [5, -1, 2]) for i in ("np_four", "uarray")]
     # key sets at the ends of the key dtype's range / spread over more than half of it (bounds and spans computed in the key dtype wrap)
     out += [{"keys": k, "kdt": "int64", "init": i, "depth": 2} for k in EXTREME_KEYSETS for i in ("default", "four", "array")]
     # EVERY batch of up to 4 samples (5 in the thorough tier) over a 9-symbol universe, for tables whose buckets hold 3, 2, 1 (and 0) keys:
@@ -114,6 +116,10 @@ def make(keys, mod, kdt, init):
         return Counter(karr, 0, **kw)
     if init == "four":
         return Counter(karr, 4, **kw)
+    if init == "np_four":        # the same constant spelled as a numpy integer scalar
+        return Counter(karr, np.int64(4), **kw)
+    if init == "uarray":         # per-key initial values in an unsigned dtype
+        return Counter(karr, np.array([10 * (i + 1) for i in range(len(keys))], dtype=np.uint8), **kw)
     if init == "ndarray":
         global LAST_INIT
         LAST_INIT = np.array([10 * (i + 1) for i in range(len(keys))])       # the caller's own array: must never change
@@ -139,7 +145,7 @@ def model0(keys, init):
         return {k: 0 for k in keys}
     if init == "ndarray":
         return {k: 10 * (i + 1) for i, k in enumerate(keys)}
-    if init == "four":
+    if init in ("four", "np_four"):
         return {k: 4 for k in keys}
     return {k: 10 * (i + 1) for i, k in enumerate(keys)}
 
@@ -212,10 +218,12 @@ def run_shard(shard, tier, acc):
         m = mod if mod is not None else 2 * len(keys) - 1
         if len(keys) > 1 and len({k % m for k in keys}) == 1:
             acc.feature("all_keys_collide")
-        if init == "four":
+        if init in ("four", "np_four"):
             acc.feature("scalar_nonzero_init")
-        if init in ("array", "ndarray"):
+        if init in ("array", "ndarray", "uarray"):
             acc.feature("array_init")
+        if init in ("np_four", "uarray"):
+            acc.feature("numpy_typed_initial_values")
         if any(k >= 2 ** 62 for k in keys):
             acc.feature("large_key")
         bs = batches(keys, mod, kdt)
